@@ -136,7 +136,7 @@ def plan_for(tier: str, seed: int, i: int) -> dict:
     return {"prop": ID, "proto": proto, "protos": protos, "mib": sorted(mib.items()), "ops": ops, "clock": clock,
             "context_name": gen.gen_bytes(rng, rng.choice([0, 0, 1, 8, 32])) if version == "v3" else b"",
             "engine_id_cfg": gen.gen_bytes(rng, rng.choice([5, 12, 32])) if version == "v3" and rng.random() < 0.3 else b"",
-            "agent_engine_id": b"\x80" + gen.gen_bytes(rng, eng_len - 1), "ctx_echo": rng.random() < 0.3}
+            "agent_engine_id": b"\x80" + gen.gen_bytes(rng, eng_len - 1), "ctx_echo": rng.random() < 0.3, "ctx_other": rng.random() < 0.15}
 
 
 def valid(plan: dict) -> bool:
@@ -164,6 +164,8 @@ def execute(plan: dict) -> dict:
             users.append(agent_user(pr))
     agent = w.add_agent(RefAgent(dict(plan["mib"]), communities=comm, users=users, engine_id=plan["agent_engine_id"]))
     agent.report_ctx_echo = bool(plan.get("ctx_echo"))
+    if plan.get("ctx_other"):
+        agent.report_ctx_other = b"\x80\x00\x1f\x88\x04proxied-context"
     cur = {"proto": proto, "context_name": plan["context_name"]}
     kw = {}
     if version == "v3":
